@@ -17,6 +17,7 @@ requests (one per line)                                   reply
   nins <path> <spec> <index|N> <viaStr>
   ndel <path> <int>
   ntext <path> <n> <spec,...|->
+  nbroken <path>                                          container.cssText = <trailing content / unclosed block>
   mode <0|1>
   reparse                                                  R <kinds tree of the reparsed sheet>  (state unchanged)
 
@@ -197,6 +198,7 @@ def decOp (ws : List String) : Option Op :=
   | ["ntext", p, n, s] => match decPath p, n.toNat? with
     | some p, some n => (decSpecs n s).map (.nSetText p)
     | _, _ => none
+  | ["nbroken", p] => (decPath p).map .nSetBroken
   | ["mode", b] => (decBool b).map .setMode
   | _ => none
 
